@@ -333,6 +333,12 @@ def invert_cases(draw):
     if lo is not None and hi is not None and not lo < hi:
         hi = lo + 1.0
     shuffled = draw(st.permutations(ivs)) if ivs else ivs
+    if style == "grid" and draw(st.integers(0, 4)) == 0:
+        # the same on a time axis that starts below zero
+        k = draw(st.sampled_from([2.5, 4.0, 7.0]))
+        shuffled = [[x[0] - k, x[1] - k] for x in shuffled]
+        lo = None if lo is None else lo - k
+        hi = None if hi is None else hi - k
     return {"intervals": [list(x) for x in shuffled], "lo": lo, "hi": hi}
 
 
@@ -371,7 +377,7 @@ def equality_cases(draw):
     style = draw(gen.STYLES_ARITH)
     spec = draw(gen.textgrid(style=style, max_tiers=3, label=st.sampled_from(["a", "b", "132", "7", "1000", "nan", "0"])))
     return {"tg": spec, "tier": draw(st.integers(0, 5)), "entry": draw(st.integers(0, 9)), "field": draw(st.integers(0, 2)),
-            "what": draw(st.sampled_from(["none", "name", "type", "label", "label_numeric", "count", "timestamp", "timestamp", "span", "order", "tg_span"]))}
+            "what": draw(st.sampled_from(["none", "name", "type", "label", "label_numeric", "count", "timestamp", "timestamp", "span", "order", "tg_span", "extra_tier"]))}
 
 
 def _perturb_time(x):
@@ -413,6 +419,10 @@ def run_equality(case):
         # only the textgrid's own span differs (a textgrid may be longer than all of its tiers)
         s2["maxT"] = s2["maxT"] + 1.5
         cl = "perturbed_textgrid_span_only"
+    elif what == "extra_tier":
+        # the other textgrid holds everything this one holds, and one tier more (same span)
+        s2["tiers"].append({"type": "point", "name": "one_more", "entries": [], "minT": s2["minT"], "maxT": s2["maxT"], "style": s2.get("style")})
+        cl = "perturbed_one_more_tier"
     elif what == "order":
         if len(s2["tiers"]) < 2:
             return {"classes": ["skip"], "nontrivial": False}
@@ -447,7 +457,7 @@ def run_equality(case):
             cl = "perturbed_timestamp"
     c = mk_tg(s2)
     # tier-level comparison of the perturbed tier
-    if what not in ("order", "tg_span"):
+    if what not in ("order", "tg_span", "extra_tier"):
         x, y = a.tiers[ti], c.tiers[ti]
         if x == y or y == x:
             raise Violation(f"equality-misses:{what}", f"tiers differing in {what} compare equal: {snap_tier(x)} vs {snap_tier(y)}")
